@@ -199,6 +199,9 @@ class PopBuilder:
         if k == "enum":
             return ["e", draw(st.sampled_from(r[2])).upper()]
         if k == "entity":
+            if depth >= 2 and self.cfg.get("no_nested_agg_refs"):
+                self.excl("entity reference inside a nested (2+ level) aggregate (finding F49: not shifted by AppendExchangeFile)")
+                raise Unsat("nested aggregate reference excluded")
             c = self.candidates(r[1])
             if not c:
                 raise Unsat("no instance of " + r[1])
